@@ -847,11 +847,17 @@ class Scheduler:
             else:
                 weight_tensor_purpose = TensorSubPurpose.Standard
 
+            # A single (non double-buffered) buffer is reused by every depth slice, so it must hold the largest one
+            first_buffer_size = (
+                encoded_weights.double_buffer_sizes[0]
+                if weight_tensor_purpose == TensorSubPurpose.DoubleBuffer
+                else weight_buffer_size
+            )
             cost.buffered_weight_tensors = [
                 self.buffer_tensor(
                     encoded_weights,
                     weight_tensor_purpose,
-                    encoded_weights.double_buffer_sizes[0],
+                    first_buffer_size,
                     weight_tensor.name + "_buffer",
                 )
             ]
@@ -938,7 +944,9 @@ class Scheduler:
                     self.buffer_tensor(
                         weight_tensor,
                         buffered_tens.sub_purpose,
-                        weight_tensor.double_buffer_sizes[idx],
+                        weight_tensor.double_buffer_sizes[idx]
+                        if buffered_tens.sub_purpose == TensorSubPurpose.DoubleBuffer
+                        else max(weight_tensor.double_buffer_sizes),
                         buffered_tens.name,
                     )
                 )
